@@ -13,8 +13,8 @@ def run(ctx):
                         "witness assembly reduces big values modulo r (gnark's SetBigInt); modelled, exercised by the root+r / hash+r generator classes"]
     ctx.trusted += ["gnark v0.8.0 groth16.Setup/Prove/Verify, gnark-crypto BN254"]
     runs = [['-seed', ctx.seed, '-n', ctx.pick(14, 300), '-depth', 2, '-batch', 2] + (['-second'] if ctx.thorough else [])]
-    # the deepest tree both modes support (uint32 index arithmetic, 2^31 leaves)
-    runs += [['-seed', ctx.seed, '-n', ctx.pick(6, 60), '-depth', 31, '-batch', 1]]
+    # the deepest trees (insertion 32, deletion 31: uint32 index arithmetic wraps there)
+    runs += [['-seed', ctx.seed, '-n', ctx.pick(6, 60), '-depth', 32, '-deldepth', 31, '-batch', 1]]
     if ctx.thorough:
         runs += [['-seed', ctx.seed + 1, '-n', 120, '-depth', 3, '-batch', 2], ['-seed', ctx.seed + 2, '-n', 120, '-depth', 1, '-batch', 1, '-second']]
     for args in runs:
